@@ -451,7 +451,12 @@ impl MerkleTree {
                     (
                         Some(DataHash {
                             index: block.index,
-                            nodes: p.nodes.expect("nodes need to be present"),
+                            nodes: p.nodes.ok_or_else(|| HypercoreError::InvalidOperation {
+                                context: format!(
+                                    "Could not create a proof for block {} with the given upgrade",
+                                    block.index
+                                ),
+                            })?,
                         }),
                         None,
                     )
@@ -460,7 +465,12 @@ impl MerkleTree {
                         None,
                         Some(DataHash {
                             index: hash.index,
-                            nodes: p.nodes.expect("nodes need to be set"),
+                            nodes: p.nodes.ok_or_else(|| HypercoreError::InvalidOperation {
+                                context: format!(
+                                    "Could not create a proof for hash {} with the given upgrade",
+                                    hash.index
+                                ),
+                            })?,
                         }),
                     )
                 } else {
@@ -480,10 +490,15 @@ impl MerkleTree {
                 Some(DataUpgrade {
                     start: upgrade.start,
                     length: upgrade.length,
-                    nodes: p.upgrade.expect("nodes need to be set"),
+                    nodes: p.upgrade.ok_or_else(|| HypercoreError::InvalidOperation {
+                        context: "Could not create an upgrade proof".to_string(),
+                    })?,
                     additional_nodes: p.additional_upgrade.unwrap_or_default(),
                     signature: signature
-                        .expect("signature needs to be set")
+                        .ok_or_else(|| HypercoreError::InvalidOperation {
+                            context: "Can not create an upgrade proof without a signature"
+                                .to_string(),
+                        })?
                         .to_bytes()
                         .to_vec(),
                 })
